@@ -145,8 +145,16 @@ fn make_negative(e: &EncodedIcc, src: &mut Src) -> (String, Vec<u8>) {
     }
 }
 
+/// `jxlref::entropy` can (rarely) fail to build a code for a stream: its hybrid-integer
+/// configs are sized by the largest value only (see the note in `jxlref::icc`), which also
+/// affects the nested code of an entropy-coded cluster map.  Such cases are discarded and counted.
+fn icc_stream_or_none(w: &mut BitWriter, enc: &[u8], src: &mut Src) -> Option<IccStreamInfo> {
+    std::panic::catch_unwind(std::panic::AssertUnwindSafe(|| write_icc_stream(w, enc, src))).ok()
+}
+
 enum E2e {
     Profile(Vec<u8>),
+    WriterGaveUp,
     Rejected(String),
     NeedMoreData,
 }
@@ -163,7 +171,9 @@ fn end_to_end(profile: &[u8], enc: &[u8], src: &mut Src) -> E2e {
     };
     let mut w = BitWriter::new();
     write_image_header(&mut w, &spec, src);
-    write_icc_stream(&mut w, enc, src);
+    if icc_stream_or_none(&mut w, enc, src).is_none() {
+        return E2e::WriterGaveUp;
+    }
     let bytes = w.finish();
     let mut uninit = jxl_oxide::JxlImage::builder().pool(jxl_threadpool::JxlThreadPool::none()).build_uninit();
     if let Err(e) = uninit.feed_bytes(&bytes) {
@@ -220,7 +230,10 @@ impl C18 {
         let mut w = BitWriter::new();
         let lead = src.range(0, 7) as u32;
         w.bits(0, lead);
-        let info = write_icc_stream(&mut w, &enc, src);
+        let Some(info) = icc_stream_or_none(&mut w, &enc, src) else {
+            *o = Outcome::discard("jxlref-entropy-code-generation-gave-up");
+            return;
+        };
         let total_bits = w.num_bits();
         let mut bytes = w.finish();
         if src.bool() {
@@ -333,6 +346,7 @@ impl C18 {
                     return fail(o, format!("e2e-negative-accepted:{label}"), format!("image initialised with a {}-byte profile from an inconsistent ICC stream; {}", got.len(), ctx(&e)));
                 }
                 (E2e::Rejected(_), Some(_)) | (E2e::NeedMoreData, Some(_)) => {}
+                (E2e::WriterGaveUp, _) => o.classes.push("e2e:writer-gave-up".into()),
             }
         }
     }
@@ -385,6 +399,7 @@ fn fixed_case(which: u8, o: &mut Outcome) {
                 E2e::Profile(got) => fail(o, "e2e-profile-mismatch", first_diff(&got, &profile)),
                 E2e::Rejected(err) => fail(o, format!("e2e-rejected: {}", crate::checks::short(&err)), err),
                 E2e::NeedMoreData => fail(o, "e2e-need-more-data", "hand-built profile"),
+                E2e::WriterGaveUp => {}
             }
         }
         _ => {}
